@@ -14,8 +14,8 @@ RULE = (
     "hidden state (key differs from the parent's)."
 )
 BOUNDS = {
-    "quick": "family A: 29 merge-free op instances, BFS to fixpoint from 5 initial lists; family B: histories with exactly one merge (4 merge instances) after <=1 merge-free steps followed by <=1 merge-free step",
-    "thorough": "family A as quick; family B: <=2 merges, merge after <=2 merge-free steps, followed by <=2 more steps",
+    "quick": "family A: 29 merge-free op instances, all histories of depth <= 4 from 5 initial lists (de-duplicated); family B: histories with one merge (7 merge instances incl. 3-input merges) after <=1 merge-free step, followed by <=1 more step",
+    "thorough": "family A: BFS to the fixpoint (measured: 49 363 states, 1.38M transitions, closes at depth 15); family B: histories of <= 4 operations with <= 2 merges, first merge after <= 2 merge-free steps",
 }
 ASSUMPTIONS = [
     "NaN and 0.0 are the same 'missing' value when comparing payload fields (EmMotl constructors fill NaN with 0.0, cf. C01)",
@@ -78,7 +78,8 @@ MERGE_FREE = (
     + [("dropdup", "subtomo_id", "score", False), ("dropdup", "subtomo_id", "score", True), ("dropdup", "object_id", "geom1", True)]
     + [("renumber_particles",), ("renumber_objects", 1), ("renumber_objects", 5), ("load_copy",)]
 )
-MERGES = [("merge_renumber", "L,A"), ("merge_renumber", "A,L"), ("merge_renumber", "L"), ("merge_dropdup", "L,B")]
+MERGES = [("merge_renumber", "L,A"), ("merge_renumber", "A,L"), ("merge_renumber", "L"), ("merge_dropdup", "L,B"),
+          ("merge_renumber", "L,A,B"), ("merge_renumber", "B,L,A"), ("merge_dropdup", "B,L")]
 
 
 def canon(v):
@@ -208,6 +209,7 @@ class Spec(BFSSpec):
             f, v = op[1], op[2]
             vals = list(v) if isinstance(v, tuple) else v
             new = obs.lib(site, m.get_motl_subset, vals, f)
+            obs.check(df_key(m.df) == parent_dk, site, "inputs-unmodified", "get_motl_subset modified the list it was called on", cls=empty)
             Q = self._rows(new, obs, site)
             if Q is not None:
                 vs = list(v) if isinstance(v, tuple) else [v]
@@ -233,6 +235,7 @@ class Spec(BFSSpec):
         elif kind == "split":
             f, i = op[1], op[2]
             parts = obs.lib(site, m.split_by_feature, f)
+            obs.check(df_key(m.df) == parent_dk, site, "inputs-unmodified", "split_by_feature modified the list it was called on", cls=empty)
             allrows = []
             ok = True
             vals = []
@@ -258,7 +261,9 @@ class Spec(BFSSpec):
             which, f = op[1], op[2]
             O = self.operand(which)
             Orows = rows_of(O.df)
+            okey = df_key(O.df)
             new = obs.lib(site, cm.Motl.get_motl_intersection, m, O, f)
+            obs.check(df_key(O.df) == okey and df_key(m.df) == parent_dk, site, "inputs-unmodified", "an operand of the intersection was modified in place", cls=empty)
             Q = self._rows(new, obs, site)
             if Q is not None:
                 ids = {fld(r, f) for r in Orows}
@@ -324,7 +329,9 @@ class Spec(BFSSpec):
         elif kind == "merge_renumber":
             inputs = [m if x == "L" else self.operand(x) for x in op[1].split(",")]
             in_rows = [rows_of(x.df) for x in inputs]
+            in_keys = [df_key(x.df) for x in inputs]
             new = obs.lib(site, cm.Motl.merge_and_renumber, inputs)
+            obs.check([df_key(x.df) for x in inputs] == in_keys, site, "inputs-unmodified", "a list passed to the merge was modified in place", cls=empty)
             Q = self._rows(new, obs, site)
             if Q is not None:
                 cat = [r for rr in in_rows for r in rr]
@@ -354,7 +361,9 @@ class Spec(BFSSpec):
         elif kind == "merge_dropdup":
             inputs = [m if x == "L" else self.operand(x) for x in op[1].split(",")]
             in_rows = [rows_of(x.df) for x in inputs]
+            in_keys = [df_key(x.df) for x in inputs]
             new = obs.lib(site, cm.Motl.merge_and_drop_duplicates, inputs)
+            obs.check([df_key(x.df) for x in inputs] == in_keys, site, "inputs-unmodified", "a list passed to the merge was modified in place", cls=empty)
             Q = self._rows(new, obs, site)
             if Q is not None:
                 cat = [r for rr in in_rows for r in rr]
@@ -418,17 +427,14 @@ class Spec(BFSSpec):
 
 
 def families(tier, seed):
-    A = BFSFamily(
-        "merge-free-fixpoint", Spec(seed, MERGE_FREE, 0, 0, 0, with_merges=False), max_depth=40,
-        expect=("subset-rows-ordered", "remove-select-complementary", "remove-rows", "split-partition", "intersection-rows",
-                "dropdup-one-best-per-id", "renumber-ids-1..N", "renumber-objects-partition", "payload-unchanged", "exactly-20-fields"),
-    )
+    exp_A = ("subset-rows-ordered", "remove-select-complementary", "remove-rows", "split-partition", "intersection-rows",
+             "dropdup-one-best-per-id", "renumber-ids-1..N", "renumber-objects-partition", "payload-unchanged", "exactly-20-fields", "inputs-unmodified")
+    exp_B = ("merge-ids-1..N", "merge-rows", "merge-object-grouping-kept", "merge-object-numbers-disjoint",
+             "merge-dropdup-one-best-per-id", "payload-unchanged", "inputs-unmodified")
     if tier == "quick":
-        B = BFSFamily("one-merge", Spec(seed, MERGE_FREE, 1, 1, 1, with_merges=True), max_depth=3,
-                      expect=("merge-ids-1..N", "merge-rows", "merge-object-grouping-kept", "merge-object-numbers-disjoint",
-                              "merge-dropdup-one-best-per-id", "payload-unchanged"))
+        A = BFSFamily("merge-free-depth4", Spec(seed, MERGE_FREE, 0, 0, 0, with_merges=False), max_depth=4, expect=exp_A)
+        B = BFSFamily("one-merge", Spec(seed, MERGE_FREE, 1, 1, 1, with_merges=True), max_depth=3, expect=exp_B)
     else:
-        B = BFSFamily("two-merges", Spec(seed, MERGE_FREE, 2, 2, 2, with_merges=True), max_depth=5,
-                      expect=("merge-ids-1..N", "merge-rows", "merge-object-grouping-kept", "merge-object-numbers-disjoint",
-                              "merge-dropdup-one-best-per-id", "payload-unchanged"))
+        A = BFSFamily("merge-free-fixpoint", Spec(seed, MERGE_FREE, 0, 0, 0, with_merges=False), max_depth=40, expect=exp_A)
+        B = BFSFamily("two-merges", Spec(seed, MERGE_FREE, 2, 1, 2, with_merges=True), max_depth=4, expect=exp_B)
     return [A, B]
